@@ -89,6 +89,8 @@ class Replayer(object):
                 # every behaviour then works on its own deep copy (models and their generators)
                 objs = {}
                 for i, x in enumerate(su, 1):
+                    if x['d'] == 'absent':
+                        continue
                     m = b.new(x['c'], x['s'], self.seedform)
                     if x['d'] != 'nodata':
                         b.fit(m, x['d'])
@@ -105,6 +107,8 @@ class Replayer(object):
             self.where.append((bi, 0, 'Reset'))
         else:
             self._emit({'e': 'Reset', 'su': su_json}, (bi, 0, 'Reset'), touched=(), parchange=True)
+        self.artsrc = {}
+        self.origin = {i: '%s,%s' % (x['c'], x['d']) for i, x in enumerate(norm_su(ev0['su']) if ev0 else [], 1)}
         lastdata = {i: (x['d'] if ev0 else None) for i, x in enumerate(norm_su(ev0['su']) if ev0 else [], 1)}
         for ei, ev in enumerate(beh[1:] if ev0 is not None else beh, 1):
             e = ev['e']
@@ -152,20 +156,25 @@ class Replayer(object):
                     shape = 'ToDict(%s)' % b.life(m)
                     d = b.to_dict(m)
                     self.arts[ev['k']] = ('dict', d)
+                    self.artsrc[ev['k']] = self.origin.get(ev['o'], '?')
                     out = self.classes.tol_id('dict', P.canon(d))
                 elif e == 'JsonTrip':
                     kind, d = self.arts[ev['k']]
                     self.arts[ev['k']] = ('dict', json.loads(json.dumps(d)))
                 elif e == 'FromDict':
                     touched, parchange = (ev['o2'],), True
-                    shape = 'FromDict(%s)' % ev['via']
+                    shape = 'FromDict(%s)[%s]' % (ev['via'], self.artsrc.get(ev['k'], '?'))
+                    self.origin[ev['o2']] = self.artsrc.get(ev['k'], '?')
                     self.objs[ev['o2']] = b.from_dict(self.arts[ev['k']][1], ev['via'])
                 elif e == 'Save':
                     path = os.path.join(self.tmp, 'art%s.bin' % ev['k'])
                     b.save(self.objs[ev['o']], path)
                     self.arts[ev['k']] = ('file', path)
+                    self.artsrc[ev['k']] = self.origin.get(ev['o'], '?')
                 elif e == 'Load':
                     touched, parchange = (ev['o2'],), True
+                    shape = 'Load[%s]' % self.artsrc.get(ev['k'], '?')
+                    self.origin[ev['o2']] = self.artsrc.get(ev['k'], '?')
                     self.objs[ev['o2']] = b.load(self.arts[ev['k']][1])
                 else:
                     raise KeyError(e)
